@@ -143,12 +143,28 @@ def constructor(repo, res, init):
     res.check(ok, "validate-before-register", init.where(), "a rejected system must not be registered: validation precedes unit_system_registry[name] = self", rid=r2)
     loop = [n for n in init.body if isinstance(n, ast.For) and norm(n.iter) == "self.units_map.items()" and any(isinstance(x, ast.Raise) for x in ast.walk(n))]
     ok = False
-    if len(loop) == 1:
-        dimv = norm(loop[0].target.elts[0])
-        tests = [norm(n.test) for n in ast.walk(loop[0]) if isinstance(n, ast.If)]
-        ok = any(f"self.registry[str(unit)][1] is not {dimv}" in t or f"self.registry[str(unit)][1] != {dimv}" in t for t in tests) and any(t in (f"inferred_dimension is not {dimv}", f"inferred_dimension != {dimv}") for t in tests)
-        defs = {norm(n.targets[0]): norm(n.value) for n in ast.walk(loop[0]) if isinstance(n, ast.Assign)}
-        ok = ok and defs.get("inferred_dimension") == "default_lut[inv_name_alternatives[bu]][1]" and defs.get("bu") == "_split_prefix(str(unit), default_lut)[1]"
+    if len(loop) == 1 and isinstance(loop[0].target, ast.Tuple):
+        from engine.sem import summarise
+
+        dimv, unitv = [norm(e) for e in loop[0].target.elts]
+        with_reg = [f"self.registry[str({unitv})][1] is {dimv}", f"self.registry[str({unitv})][1] == {dimv}"]
+        no_reg = [f"default_lut[inv_name_alternatives[_split_prefix(str({unitv}), default_lut)[1]]][1] is {dimv}", f"default_lut[inv_name_alternatives[_split_prefix(str({unitv}), default_lut)[1]]][1] == {dimv}"]
+        sums = summarise(init, body=loop[0].body, keep={dimv, unitv})
+        ok = True
+        n_r = {"reg": 0, "noreg": 0}
+        for x in sums:
+            has_reg = x.has("self.registry is None", False)
+            mism_reg = any(x.has(t_, False) for t_ in with_reg)
+            mism_no = any(x.has(t_, False) for t_ in no_reg)
+            if x.kind == "raise":
+                ok &= x.value.startswith("IllDefinedUnitSystem(") and ((has_reg and mism_reg) or (x.has("self.registry is None", True) and mism_no))
+                n_r["reg" if has_reg else "noreg"] += 1
+            else:
+                ok &= not ((has_reg and mism_reg) or mism_no)
+                # a unit that was looked at at all (not the optional missing current) had its dimension compared
+                if not x.has(f"{unitv} is None", True) or not x.has(f"{dimv} is dimensions.current_mks", True):
+                    ok &= any(x.has(t_, True) for t_ in with_reg + no_reg)
+        ok &= n_r["reg"] >= 1 and n_r["noreg"] >= 1
     res.check(ok, "dimension-tests", init.where(), "with a registry the unit's table dimension, without one the default table's dimension (after prefix and alias resolution) is compared with the slot's dimension", rid=r2)
 
 
